@@ -21,6 +21,8 @@ class Cfg(object):
         self.reads = False
         self.faults = True       # failing leaves, raise statements
         self.lazy_raise = True
+        self.agen_modes = ("plain", "await", "value", "span", "span")   # where generator bodies open recording blocks
+        self.tool_reads = False     # C07: tool bodies read scoped value 0 after their request came back
         self.tools = ()             # library tools used as leaves: subset of TOOLS ("dd2" = deduplicated bodies that re-enter themselves from a failure handler)
         self.shared_lazy = 0        # weight of ["slazy", mode, k] leaves: the same lazy Future object in several places
         self.bad = True
@@ -170,7 +172,7 @@ def tool_leaf(s):
         cid0 = s.cid()
         for _ in range(max(0, n - 1)):
             s.cid()
-        return ["tool", "agen", n, kind, cid0, s.pick(["plain", "await", "await", "value", "span"] if cfg.ctx else ["plain"])]
+        return ["tool", "agen", n, kind, cid0, s.pick(cfg.agen_modes if cfg.ctx else ["plain"])]
     if name in ("amap", "asorted", "amin", "amax", "afilter"):
         return ["tool", name, s.int(0, 3), s.int(0 if name in ("amap", "asorted", "afilter") else 1, 3), kind]
     if name == "retry":
@@ -551,7 +553,7 @@ def add_gen_loops(s, root):
             s.cid()
         at = s.int(0, len(body))
         body.insert(at, {"op": "genstart", "gid": 0, "n": n, "kind": s.pick(s.cfg.kinds), "cid0": cid0,
-                         "mode": s.pick(["plain", "await", "value", "span", "span"] if s.cfg.ctx else ["plain"])})
+                         "mode": s.pick(s.cfg.agen_modes if s.cfg.ctx else ["plain"])})
         for _ in range(s.int(1, 3)):
             at = s.int(at + 1, len(body))
             body.insert(at, {"op": "gennext", "gid": 0, "count": s.int(1, 2)})
@@ -630,6 +632,40 @@ def hoist_mk(root):
         t["body"][0:0] = mks
 
 
+def strip_tools_in_shared(root):
+    """the dynamic scope of a task awaited by several parents is ambiguous: no tool body reads inside such tasks"""
+    from .engine import walk_stmts
+
+    def strip_struct(y):
+        if y is None:
+            return y
+        if y[0] in ("T", "L"):
+            return [y[0], [strip_struct(x) for x in y[1]]]
+        if y[0] == "D":
+            return ["D", [[k, strip_struct(x)] for k, x in y[1]]]
+        if y[0] == "task":
+            strip_task(y[1])
+            return y
+        return ["const", 0] if y[0] == "tool" else y
+
+    def strip_body(body):
+        body[:] = [st_ for st_ in body if st_["op"] not in ("genstart", "gennext")]
+        for st_ in body:
+            if st_["op"] in ("with", "try"):
+                strip_body(st_["body"])
+            elif st_["op"] == "yield":
+                st_["y"] = strip_struct(st_["y"])
+            elif st_["op"] in ("sync", "mk"):
+                strip_task(st_["task"])
+
+    def strip_task(t):
+        strip_body(t["body"])
+    for t in tasks_of(root):
+        for st_ in walk_stmts(t["body"]):
+            if st_["op"] == "mk":
+                strip_task(st_["task"])
+
+
 @st.composite
 def programs(draw, cfg):
     s = S(draw, cfg)
@@ -656,9 +692,13 @@ def programs(draw, cfg):
     if cfg.dag and s.chance(3):
         add_same_yield_dups(s, root)
     hoist_mk(root)
+    if cfg.tool_reads:
+        strip_tools_in_shared(root)
     if cfg.reyield:
         add_reyields(s, root)
     prog = {"root": root, "shape": shape, "prio": priorities(s), "faults": [], "conv": s.pick(cfg.convs), "nsv": 2}
+    if cfg.tool_reads:
+        prog["tool_reads"] = True
     if cfg.flush_faults and not s.has_tools and s.chance(3):
         for _ in range(s.int(1, 2)):
             prog["faults"].append([s.pick(cfg.kinds), s.pick([0, 0, 0, 1, 1, 2]), s.pick(cfg.flush_faults)])
